@@ -63,6 +63,8 @@ def run(ck):
     ck.rule("R3", "a failing host memory call on the Python back end's guest access path is caught and reported as a VM fault", floor=2)
     ck.rule("R4", "each back end's guest access path tests the page permission", floor=6)
     ck.rule("R5", "the two C dispatch loops perform the same abstract event sequence", floor=2)
+    ck.rule("R6", "each operator handled by the LLVM back end reaches the LLVM instruction of its reference meaning", floor=20)
+    ck.rule("R7", "contradiction lints: a key tested in one table indexes that table; binary calls use distinct operands", floor=2)
 
     # ---------------------------------------------------------------- R1
     pc = py_constants(ck.repo)
@@ -126,6 +128,8 @@ def run(ck):
             ok = any(_tests_perm(funcs[f], bit) for f in clo)
             ck.ob("R4", "c:%s" % name, ok, VMC, "%s reaches page memory without a permission test" % name)
 
+    _llvm_rules(ck)
+
     # ---------------------------------------------------------------- R5
     seqs = {}
     for rel, fname in (("miasm/jitter/Jitgcc.c", "gcc_exec_block"), ("miasm/jitter/Jitllvm.c", "llvm_exec_block")):
@@ -177,3 +181,101 @@ def _classify(st):
         if "Py_DECREF" in calls or "_Py_DECREF" in calls:
             return ["decref"]
     return []
+
+
+def _llvm_rules(ck):
+    """R6 operator table over LLVMFunction.add_ir, R7 the two contradiction lints over all of miasm/jitter."""
+    from sa.optable import OT0, LLVM
+    from sa.dispatch import tok_consts
+    from sa.cfg import CFG
+    LL = "miasm/jitter/llvmconvert.py"
+    m = ck.repo.mod(LL)
+    fn = m.func("LLVMFunction.add_ir")
+    consts = tok_consts(ck.repo)
+    # every `if op == X: callback = builder.M` / `elif` pair inside add_ir
+    pairs = {}
+    for n in ast.walk(fn):
+        if isinstance(n, ast.If) and isinstance(n.test, ast.Compare) and norm(n.test.left) == "op" and isinstance(n.test.ops[0], ast.Eq):
+            r = n.test.comparators[0]
+            key = r.value if isinstance(r, ast.Constant) else consts.get(norm(r).split(".")[-1])
+            cb = opname = None
+            for s_ in n.body:
+                if isinstance(s_, ast.Assign) and norm(s_.targets[0]) == "callback" and dotted(s_.value) and dotted(s_.value).startswith("builder."):
+                    cb = dotted(s_.value)[8:]
+                if isinstance(s_, ast.Assign) and norm(s_.targets[0]) == "opname" and isinstance(s_.value, ast.Constant):
+                    opname = s_.value.value
+            if key is not None and cb is not None:
+                pairs.setdefault(key, []).append((cb, opname, n))
+    # comparisons reach the first matching branch: the early unsigned table wins for == <u <=u
+    early = None
+    for n in ast.walk(fn):
+        if isinstance(n, ast.Assign) and norm(n.targets[0]) == "unsigned_cmps" and isinstance(n.value, ast.Dict):
+            early = dict((k.value, v.value) for k, v in zip(n.value.keys, n.value.values))
+    ck.need(early is not None and pairs, "LLVMFunction.add_ir: operator branches not found")
+    CMPREF = {"==": ("icmp_unsigned", "=="), "<u": ("icmp_unsigned", "<"), "<=u": ("icmp_unsigned", "<="),
+              "<s": ("icmp_signed", "<"), "<=s": ("icmp_signed", "<=")}
+    for op, (cb, tok) in sorted(CMPREF.items()):
+        if op in early:
+            got = ("icmp_unsigned", early[op])
+            where = "the early unsigned table"
+            node = fn
+        else:
+            cand = [(c, o, n) for (c, o, n) in pairs.get(op, [])]
+            got = (cand[0][0], cand[0][1]) if cand else (None, None)
+            where = "its branch"
+            node = cand[0][2] if cand else fn
+        ck.ob("R6", "llvm:%s" % op, got == (cb, tok), m.where(node),
+              "comparison %r is translated by %s as %s(%r); the reference is %s(%r)" % (op, where, got[0], got[1], cb, tok))
+    for op in ("udiv", "umod", "sdiv", "smod", "*", "+", "&", "^", "|", "%", "/", ">>", "<<", "a>>"):
+        cand = pairs.get(op, [])
+        ref = OT0[op]
+        got = LLVM.get(cand[0][0], "?") if cand else None
+        # LLVM shifts are poison for counts >= width: the saturation select is checked separately
+        norm_got = {"SHL_POISON": "SHL_SAT", "LSHR_POISON": "LSHR_SAT", "ASHR_POISON": "ASHR_SAT"}.get(got, got)
+        ck.ob("R6", "llvm:%s" % op, norm_got == ref, m.where(cand[0][2]) if cand else LL,
+              "operator %r is translated with builder.%s = %s; miasm's meaning is %s" % (op, cand[0][0] if cand else None, got, ref))
+    txt = norm(ast.Module(body=fn.body, type_ignores=[])).replace(" ", "")
+    ok = "cond_ok=self.builder.icmp_unsigned('<',count,itype(expr.size))" in txt and "ret=self.builder.select(cond_ok,callback(value,count),zero)" in txt
+    ck.ob("R6", "llvm:shift-saturation", ok, m.where(fn), "shifts must select 0 (or the sign fill) when the count is not < width: LLVM shifts by >= width are poison")
+    ok = "cond_neg=self.builder.icmp_signed('<',value,zero)" in txt and "zero=self.builder.select(cond_neg,itype(-1),zero)" in txt
+    ck.ob("R6", "llvm:ashr-sign-fill", ok, m.where(fn), "a>> by >= width must give -1 for negative values")
+    ok = "shift=builder.urem(count,expr_size)" in txt and "shift_inv=builder.urem(builder.sub(expr_size,shift),expr_size)" in txt and \
+        "ifop=='<<<':\npart_a=builder.shl(value,shift)\npart_b=builder.lshr(value,shift_inv)\nelse:\npart_a=builder.lshr(value,shift)\npart_b=builder.shl(value,shift_inv)".replace("\n", "\n") in txt.replace("    ", "")
+    ck.ob("R6", "llvm:rotations", ok, m.where(fn), "rotations must reduce the count modulo the width and OR (value shl s) with (value lshr (width - s)), mirrored for >>>")
+    ok = "zero=LLVMType.IntType(expr.size)(0)" in txt and "ret=builder.sub(zero,self.add_ir(expr.args[0]))" in txt
+    ck.ob("R6", "llvm:neg", ok, m.where(fn), "unary minus must be 0 - x")
+    ok = "truncated=builder.trunc(arg,LLVMType.IntType(8))" in txt and "self.mod.get_global('llvm.ctpop.i8')" in txt and \
+        "ret=builder.not_(builder.trunc(bitcount,LLVMType.IntType(1)))" in txt
+    ck.ob("R6", "llvm:parity", ok, m.where(fn), "parity must be not(popcount(low byte) & 1)")
+    # operand order of the division family
+    ok = "ret=callback(arg_a,arg_b)" in txt and "arg_a=self.add_ir(expr.args[0])" in txt and "arg_b=self.add_ir(expr.args[1])" in txt
+    ck.ob("R6", "llvm:division-operands", ok, m.where(fn), "division must be callback(dividend, divisor)")
+
+    # ---------------------------------------------------------------- R7 (a) key tested in D1 indexes D2
+    n_a = n_b = 0
+    for rel in [r for r in ck.repo.pyfiles("miasm/jitter") if r.endswith(".py")]:
+        mm = ck.repo.mod(rel)
+        for q, f in mm.funcs.items():
+            for n in walk_body(f):
+                if isinstance(n, ast.If):
+                    t = n.test
+                    if isinstance(t, ast.Compare) and len(t.ops) == 1 and isinstance(t.ops[0], ast.In) and isinstance(t.left, ast.Name):
+                        d1 = dotted(t.comparators[0])
+                        if d1 and d1.startswith("self.") and d1.split(".")[-1].startswith("op_translate"):
+                            for x in walk_local(ast.Module(body=n.body, type_ignores=[])):
+                                if isinstance(x, ast.Subscript) and norm(x.slice) == t.left.id and dotted(x.value) and \
+                                        dotted(x.value).split(".")[-1].startswith("op_translate"):
+                                    n_a += 1
+                                    ck.ob("R7", "%s:%s[%s]" % (q, d1, t.left.id), dotted(x.value) == d1, mm.where(x),
+                                          "under `%s in %s` the code indexes %s[%s]: the key is only known to be in the former table (KeyError)"
+                                          % (t.left.id, d1, dotted(x.value), t.left.id))
+            # (b) two operands of one binary runtime call built from the same sub-expression
+            for n in walk_body(f):
+                if isinstance(n, ast.Assign) and isinstance(n.targets[0], ast.Name) and n.targets[0].id in ("arg2", "arg_b", "right"):
+                    prev = [x for x in walk_body(f) if isinstance(x, ast.Assign) and isinstance(x.targets[0], ast.Name)
+                            and x.targets[0].id in ("arg1", "arg_a", "left") and x.lineno < n.lineno and n.lineno - x.lineno <= 2]
+                    if prev:
+                        n_b += 1
+                        ck.ob("R7", "%s:%s/%s" % (q, prev[-1].targets[0].id, n.targets[0].id), norm(prev[-1].value) != norm(n.value), mm.where(n),
+                              "both operands are built from `%s`: the operation is applied to a value and itself" % norm(n.value))
+    ck.need(n_a >= 1 and n_b >= 2, "contradiction lints matched nothing (a=%d, b=%d)" % (n_a, n_b))
